@@ -1,8 +1,28 @@
 import Genshi.Wire
+import Genshi.Model.PyXform
+import Genshi.Model.PyUnxf
+import Genshi.Model.PyLex
+import Driver.PyWire
 namespace Driver.C03
-open Genshi
+open Genshi Genshi.Py Genshi.Sexp Driver.PyWire
 
-/-- stub: the model driver for C03 is not built yet -/
-def handle : List Sexp → Option Sexp := fun _ => none
+/-- `xform tree`: the tree after `ExpressionASTTransformer` (`unmodelled` outside the modelled syntax);
+    `unxf tree`: the rewriting undone;
+    `lex text`: the chunks of `interpolation.lex` as `(T|F text)` pairs, `err`, or `unmodelled` -/
+def handle : List Sexp → Option Sexp
+  | [.atom "xform", t] =>
+      match decE t with
+      | none => some (.atom "unmodelled")
+      | some e => some (.list [.atom "ok", encE (xform e)])
+  | [.atom "unxf", t] =>
+      match decE t with
+      | none => some (.atom "unmodelled")
+      | some e => some (.list [.atom "ok", encE (unxf e)])
+  | [.atom "lex", .str text] =>
+      if Lex.unmodelled text then some (.atom "unmodelled") else
+      match Lex.lex text with
+      | .error _ => some (.atom "err")
+      | .ok chunks => some (.list [.atom "ok", .list (chunks.map fun (b, s) => .list [ofBool b, .str s])])
+  | _ => none
 
 end Driver.C03
